@@ -228,3 +228,439 @@ Lemma rg_witness :
     Some (exec_pwhash (bs "Passw0rd!x")) /\
   length (s_users (w_st (fst (run XC rg_cfg empty_world (rg_first ++ [(AReq rg_second, hx_oracle)]))))) = 1%nat.
 Proof. vm_compute. repeat split; reflexivity. Qed.
+
+(* ================================================================================================ *)
+(* C06: after a password change the old password is dead, along every continuation                 *)
+(* ================================================================================================ *)
+From AB Require Import Proofs.Guards Proofs.Guards2 Proofs.Guards3 Proofs.StepGuard Proofs.StepAll Proofs.TokenProofs
+  Proofs.StoreShape Proofs.PwKeep.
+
+(* account U's stored password is the hash of p *)
+Definition stored_pw (C : crypto) (U p : bytes) (w : world) : Prop :=
+  exists u, ulookup U (s_users (w_st w)) = Some u /\ u_password u = pwhash C p.
+
+(* no step of the history can change U's stored password: no UpdatePassword U, no seed of U, no
+   recover-end POST (of anybody) *)
+Definition pw_quiet (U : bytes) (l : list (action * oracle)) : Prop :=
+  Forall (fun ao => ~ changes_password U (fst ao)) l.
+
+(* the password a request submits, as every handler reads it ([values]) *)
+Definition sub_password (cfg : config) (req : request) : bytes :=
+  aget f_password (if c_api cfg then q_form req else q_form req ++ q_query req).
+
+Section C06.
+Variable C : crypto.
+Variable cfg : config.
+
+Lemma step_keeps_stored_pw U p w a O :
+  filed (w_st w) -> ~ changes_password U a -> stored_pw C U p w -> stored_pw C U p (fst (step C cfg w a O)).
+Proof.
+  intros F NC (u & Hu & Hp). destruct (step_keeps_password C cfg w a O U u F NC Hu) as (u' & Hu' & Hp').
+  exists u'. split; [exact Hu'|congruence].
+Qed.
+
+Lemma run_keeps_stored_pw U p : forall l w,
+  filed (w_st w) -> pw_quiet U l -> stored_pw C U p w -> stored_pw C U p (fst (run C cfg w l)).
+Proof.
+  induction l as [|[a O] l IH]; intros w F Q S; [exact S|].
+  inversion Q as [|? ? Q1 Q2]; subst. cbn [fst] in Q1.
+  rewrite run_cons. cbn [fst]. apply IH; [apply step_filed_lemma; exact F|exact Q2|].
+  apply step_keeps_stored_pw; assumption.
+Qed.
+
+(* one login request against a world in which U's password is the hash of p' *)
+Lemma step_wrong_password_no_session U p' w req O b :
+  crypto_laws C -> stored_pw C U p' w -> pw_dom p' ->
+  q_route req = RLogin -> sub_password cfg req <> p' ->
+  alookup k_uid (jar_get b (w_sess w)) <> Some U ->
+  alookup k_uid (jar_get b (w_sess (fst (step C cfg w (AReq req) O)))) <> Some U.
+Proof.
+  intros L (u & Hu & Hp) Dp R NE H0 H1.
+  destruct (c01_session_only_against_credential_lemma C cfg w (AReq req) O U b H1 H0)
+    as [(req' & Ea & _ & CS)|[Ea|(j & Ea & _)]]; try discriminate Ea.
+  inversion Ea; subst req'. unfold credential_shown in CS.
+  destruct CS as [(_ & _ & _ & G)|[(R' & _)|[(R' & _)|[(R' & _)|[(pv & R' & _)|[(R' & _)|[(R' & _)|(f1 & f2 & f3 & f4 & f5 & f6 & R' & _)]]]]]]];
+    try (rewrite R in R'; discriminate R').
+  apply g_login_reading in G. destruct G as (_ & u' & Hu' & Hc).
+  rewrite Hu in Hu'. inversion Hu'; subst u'. rewrite Hp in Hc.
+  apply NE. unfold sub_password.
+  set (E := mkEnv C cfg O req (jar_get (q_browser req) (w_cook w)) (jar_get (q_browser req) (w_sess w))) in *.
+  change (aget f_password (values E) = p').
+  destruct (Nat.leb_spec (length (aget f_password (values E))) 72) as [Hle|Hgt].
+  - symmetry. apply (pw_ok _ L p' _ Dp Hle). exact Hc.
+  - rewrite (pw_long _ L _ _ Hgt) in Hc. discriminate Hc.
+Qed.
+
+(* THE THEOREM: from a world in which U's stored password is the hash of p', along every
+   continuation l1 without a further password change of U, a login request carrying any other
+   password never puts U's identity into a session that did not hold it *)
+Lemma old_password_revoked_lemma U p' w0 l1 req O b :
+  crypto_laws C -> filed (w_st w0) -> stored_pw C U p' w0 -> pw_dom p' ->
+  pw_quiet U l1 ->
+  q_route req = RLogin -> sub_password cfg req <> p' ->
+  let w1 := fst (run C cfg w0 l1) in
+  alookup k_uid (jar_get b (w_sess w1)) <> Some U ->
+  alookup k_uid (jar_get b (w_sess (fst (step C cfg w1 (AReq req) O)))) <> Some U.
+Proof.
+  intros L F S Dp Q R NE w1. apply (step_wrong_password_no_session U p'); auto.
+  apply run_keeps_stored_pw; assumption.
+Qed.
+
+(* ... stated over one history: l = l1 ++ login :: l2 *)
+Lemma old_password_revoked_history U p' w0 l l1 req O l2 b :
+  crypto_laws C -> filed (w_st w0) -> stored_pw C U p' w0 -> pw_dom p' ->
+  l = l1 ++ (AReq req, O) :: l2 -> pw_quiet U l ->
+  q_route req = RLogin -> sub_password cfg req <> p' ->
+  alookup k_uid (jar_get b (w_sess (fst (run C cfg w0 l1)))) <> Some U ->
+  alookup k_uid (jar_get b (w_sess (fst (run C cfg w0 (l1 ++ [(AReq req, O)]))))) <> Some U.
+Proof.
+  intros L F S Dp -> Q R NE H0. rewrite run_app_fst, run_cons. cbn [fst run].
+  apply (old_password_revoked_lemma U p'); auto.
+  unfold pw_quiet in *. apply Forall_app in Q. exact (proj1 Q).
+Qed.
+
+(* how the hypothesis [stored_pw] comes about, 1: Authboss.UpdatePassword that reported no error *)
+Lemma update_password_establishes U p' w O :
+  filed (w_st w) -> ob_err (snd (step C cfg w (AUpdatePassword U p') O)) = false ->
+  let w' := fst (step C cfg w (AUpdatePassword U p') O) in
+  stored_pw C U p' w' /\ pw_dom p' /\ rmlookup U (s_rm (w_st w')) = [] /\ filed (w_st w').
+Proof.
+  intros F Ob w'. pose proof (step_filed_lemma C cfg w (AUpdatePassword U p') O F) as F'. fold w' in F'.
+  pose proof (step_no_panic_lemma C cfg w (AUpdatePassword U p') O) as Np.
+  subst w'. unfold step in *.
+  destruct (admin C cfg O (AUpdatePassword U p') (init_hst (w_st w) O)) as [r h] eqn:Ea.
+  cbn [snd obs_of ob_err ob_panic fst w_st set] in *.
+  destruct r as [[]|e|]; try discriminate.
+  destruct (admin_update_password_lemma C cfg O U p' (init_hst (w_st w) O) _ (filed_keyed _ F) Ea) as (Dp & u & _ & Hu' & Hr & _).
+  split; [|split; [exact Dp|split; [exact Hr|exact F']]].
+  exists (u <| u_password := pwhash C p' |>). split; [exact Hu'|reflexivity].
+Qed.
+
+(* 2: a recover-end request after which U's stored password differs from what it was: the new one
+   is the hash of the submitted password, which bcrypt can read *)
+Lemma recover_establishes U w req O a b0 :
+  q_route req = RRecoverEnd -> q_meth req = POST ->
+  ulookup U (s_users (w_st w)) = Some a ->
+  ulookup U (s_users (w_st (fst (step C cfg w (AReq req) O)))) = Some b0 ->
+  u_password b0 <> u_password a ->
+  stored_pw C U (sub_password cfg req) (fst (step C cfg w (AReq req) O)) /\ pw_dom (sub_password cfg req).
+Proof.
+  intros R M Ha Hb Ne. unfold stored_pw. revert Hb. unfold step.
+  destruct (serve _ _) as [r h] eqn:Sv.
+  assert (St : forall (w2 : world), w_st (match h_out h with
+             | Some wr => (w <| w_st := h_st h |>) <| w_sess := jar_set (q_browser req) (apply_events (jar_get (q_browser req) (w_sess w)) (w_sev wr)) (w_sess (w <| w_st := h_st h |>)) |>
+                            <| w_cook := jar_set (q_browser req) (apply_events (jar_get (q_browser req) (w_cook w)) (w_cev wr)) (w_cook (w <| w_st := h_st h |>)) |>
+             | None => w <| w_st := h_st h |> end) = h_st h).
+  { intros _. destruct (h_out h); reflexivity. }
+  cbn [fst]. rewrite (St w). clear St. intros Hb.
+  set (E := mkEnv C cfg O req (jar_get (q_browser req) (w_cook w)) (jar_get (q_browser req) (w_sess w))) in *.
+  unfold serve, route_table in Sv. cbn [e_req E] in Sv. rewrite R, M in Sv.
+  unfold when, get_post in Sv. cbn [e_req E] in Sv. rewrite M in Sv.
+  assert (W : forall x, write_resp x (init_hst (w_st w) O) = (r, h) -> False).
+  { intros x Eq. pose proof (pres_write_resp h_st x _ _ _ Eq) as P. cbn [h_st init_hst] in P.
+    rewrite P in Hb. rewrite Ha in Hb. inversion Hb; subst. apply Ne. reflexivity. }
+  destruct (has_mod (e_cfg E) MRecover); [|exfalso; exact (W _ Sv)].
+  destruct (weh_st _ _ _ _ _ Sv) as (x & h1 & E1 & Sth). rewrite Sth in Hb.
+  destruct (recover_end_cases E _ _ _ E1) as [Un|(raw & u & A1 & A2 & A3 & A4 & A5 & _ & Dm & (su & B1 & B2) & Fr)].
+  - exfalso. rewrite Un in Hb. cbn [h_st init_hst] in Hb. rewrite Ha in Hb. inversion Hb; subst. apply Ne. reflexivity.
+  - destruct (bytes_dec U (u_pid u)) as [->|N].
+    + apply upto_lock_recovered in B2 as (_ & P1 & _). rewrite Sth.
+      split; [|exact Dm]. exists su. split; [exact B1|exact P1].
+    + exfalso. rewrite (Fr U N) in Hb. cbn [h_st init_hst] in Hb. rewrite Ha in Hb. inversion Hb; subst. apply Ne. reflexivity.
+Qed.
+End C06.
+
+(* non-vacuity for C06: seed an account (password "password1", one remember token), UpdatePassword to
+   a new one, then a page view, a manual lock and an unlock; afterwards the OLD password opens no
+   session and the NEW one does *)
+Definition pc_new := bs "Newpassw0rd".
+Definition pc_login (pw : bytes) : request :=
+  mkRequest (bs "b1") POST RLogin (bs "/login") [] [] [(f_email, hx_pid); (f_password, pw)] false.
+Definition pc_seeded : world := fst (run XC (hx_cfg false) empty_world [(ASeed hx_user [bs "tok"], hx_oracle)]).
+Definition pc_w0 : world := fst (step XC (hx_cfg false) pc_seeded (AUpdatePassword hx_pid pc_new) hx_oracle).
+Definition pc_cont : list (action * oracle) :=
+  [(AReq hx_page, hx_oracle); (ALock hx_pid, hx_oracle); (AUnlock hx_pid, hx_oracle)].
+
+Lemma pc_quiet : pw_quiet hx_pid pc_cont.
+Proof.
+  unfold pw_quiet, pc_cont. constructor; [|constructor; [|constructor; [|constructor]]]; cbn [fst changes_password].
+  - intros [R _]. discriminate R.
+  - intros [].
+  - intros [].
+Qed.
+
+Lemma pc_witness :
+  ob_err (snd (step XC (hx_cfg false) pc_seeded (AUpdatePassword hx_pid pc_new) hx_oracle)) = false /\
+  pw_quiet hx_pid pc_cont /\
+  q_route (pc_login (bs "password1")) = RLogin /\ sub_password (hx_cfg false) (pc_login (bs "password1")) <> pc_new /\
+  alookup k_uid (jar_get (bs "b1") (w_sess (fst (run XC (hx_cfg false) pc_w0 pc_cont)))) = None /\
+  alookup k_uid (jar_get (bs "b1") (w_sess (fst (run XC (hx_cfg false) pc_w0
+     (pc_cont ++ [(AReq (pc_login (bs "password1")), hx_oracle)]))))) = None /\
+  alookup k_uid (jar_get (bs "b1") (w_sess (fst (run XC (hx_cfg false) pc_w0
+     (pc_cont ++ [(AReq (pc_login pc_new), hx_oracle)]))))) = Some hx_pid.
+Proof.
+  split; [vm_compute; reflexivity|]. split; [exact pc_quiet|]. split; [reflexivity|].
+  split; [vm_compute; discriminate|]. vm_compute. repeat split; reflexivity.
+Qed.
+
+(* ================================================================================================ *)
+(* C09: idle expiry over a history - the gap abstraction tied to [run]                              *)
+(* ================================================================================================ *)
+From AB Require Import Base.TextProofs Proofs.ServeEvents Proofs.ExpireProofs Proofs.StepLift2.
+
+(* what browser b does in the history: only requests to application routes whose stack has the expire
+   middleware in front and no remember middleware, at times zdec can print; nobody edits b's session
+   jar by hand.  Everything else - other browsers' requests on any route, administrative calls, seeds,
+   edits of other jars and of b's cookie jar - is unconstrained. *)
+Definition b_quiet_action (b : bytes) (ao : action * oracle) : Prop :=
+  match fst ao with
+  | AReq req => q_browser req = b ->
+      (exists full tf fr lk c, q_route req = RApp full tf fr lk c false true) /\ Z.abs (o_now (snd ao)) < 10 ^ 40
+  | APlant b' _ _ => b' <> b
+  | ASetJar false b' _ => b' <> b
+  | _ => True
+  end.
+Definition b_app_history (b : bytes) (l : list (action * oracle)) : Prop := Forall (b_quiet_action b) l.
+
+(* the times of b's requests, in order *)
+Definition b_times (b : bytes) (l : list (action * oracle)) : list Z :=
+  flat_map (fun ao => match fst ao with
+                      | AReq req => if beqb (q_browser req) b then [o_now (snd ao)] else []
+                      | _ => [] end) l.
+
+(* b's session names U (a non-empty identity) and carries a stamp that reads t *)
+Definition stamped (b U : bytes) (t : Z) (w : world) : Prop :=
+  alookup k_uid (jar_get b (w_sess w)) = Some U /\ bempty U = false /\
+  exists ds, alookup k_last_action (jar_get b (w_sess w)) = Some ds /\ zparse ds = Some t.
+
+Lemma last_cons_default {A} (ts : list A) : forall x d, last (x :: ts) d = last ts x.
+Proof.
+  induction ts as [|a ts IH]; intros x d; [reflexivity|].
+  change (last (x :: a :: ts) d) with (last (a :: ts) d). rewrite (IH a d).
+  change (last (a :: ts) x) with (last (a :: ts) x). rewrite (IH a x). reflexivity.
+Qed.
+
+Section C09.
+Variable C : crypto.
+Variable cfg : config.
+
+(* every request of b got a response (a response that is never written - possible only when a
+   backend fault hits the renderer and the error handler is the silent one - flushes no session
+   event: neither the refreshed stamp nor the expiry would reach the store) *)
+Fixpoint answered (b : bytes) (w : world) (l : list (action * oracle)) : Prop :=
+  match l with
+  | [] => True
+  | (a, orc) :: r =>
+      (forall req, a = AReq req -> q_browser req = b -> ob_resp (snd (step C cfg w a orc)) <> None) /\
+      answered b (fst (step C cfg w a orc)) r
+  end.
+
+Lemma other_step_keeps_sess b w a O :
+  (forall req, a = AReq req -> q_browser req <> b) ->
+  (forall k v, a <> APlant b k v) -> (forall j, a <> ASetJar false b j) ->
+  jar_get b (w_sess (fst (step C cfg w a O))) = jar_get b (w_sess w).
+Proof.
+  intros H1 H2 H3. destruct a as [req|p|p|p pw|p|u rm|b' k v|ck b' j].
+  - apply (step_other_browsers_lemma C cfg w req O b). intros Eb. apply (H1 req eq_refl). symmetry. exact Eb.
+  - rewrite (proj1 (admin_keeps_jars C cfg w (ALock p) O I)). reflexivity.
+  - rewrite (proj1 (admin_keeps_jars C cfg w (AUnlock p) O I)). reflexivity.
+  - rewrite (proj1 (admin_keeps_jars C cfg w (AUpdatePassword p pw) O I)). reflexivity.
+  - rewrite (proj1 (admin_keeps_jars C cfg w (AStartConfirm p) O I)). reflexivity.
+  - rewrite (proj1 (admin_keeps_jars C cfg w (ASeed u rm) O I)). reflexivity.
+  - unfold step. cbn [fst w_sess set]. apply jar_get_set_neq. intros ->. exact (H2 k v eq_refl).
+  - unfold step. destruct ck; cbn [fst w_sess set]; [reflexivity|].
+    apply jar_get_set_neq. intros ->. exact (H3 j eq_refl).
+Qed.
+
+Lemma quiet_not_issuing b ao : b_quiet_action b ao -> ~ may_issue_identity b (fst ao).
+Proof.
+  destruct ao as [a O]. unfold b_quiet_action. cbn [fst snd].
+  intros Q [(req & -> & Hb & CL)|[(v & ->)|(j & ->)]].
+  - destruct (Q Hb) as [(full & tf & fr & lk & c & R) _]. unfold can_login in CL. rewrite R in CL.
+    destruct (q_meth req); discriminate CL.
+  - apply Q. reflexivity.
+  - apply Q. reflexivity.
+Qed.
+
+Lemma anonymous_stays b : forall l w,
+  b_app_history b l -> alookup k_uid (jar_get b (w_sess w)) = None ->
+  alookup k_uid (jar_get b (w_sess (fst (run C cfg w l)))) = None.
+Proof.
+  intros l w Q H. apply history_stays_anonymous_lemma; [exact H|].
+  intros p a O s E [U Is]. subst l. apply (quiet_not_issuing b (a, O)).
+  - exact (Forall_mid _ _ _ _ Q).
+  - exact (issued_may_issue _ _ _ _ _ _ _ Is).
+Qed.
+
+Lemma history_expiry_lemma b : bmem k_uid (c_whitelist cfg) = false ->
+  forall l w U t, stamped b U t w -> b_app_history b l -> answered b w l ->
+  (survives (c_expire_after cfg) t (b_times b l) = true ->
+     stamped b U (last (b_times b l) t) (fst (run C cfg w l))) /\
+  (survives (c_expire_after cfg) t (b_times b l) = false ->
+     alookup k_uid (jar_get b (w_sess (fst (run C cfg w l)))) = None).
+Proof.
+  intros WL. induction l as [|[a O] l IH]; intros w U t St Q An.
+  - cbn. split; [intros _; exact St|discriminate].
+  - inversion Q as [|? ? Q1 Q2]; subst. destruct An as [An1 An2]. rewrite run_cons. cbn [fst].
+    assert (OTHER : (forall req, a = AReq req -> q_browser req <> b) ->
+              b_times b ((a, O) :: l) = b_times b l /\ stamped b U t (fst (step C cfg w a O))).
+    { intros NB. split.
+      - unfold b_times. cbn [flat_map fst snd]. destruct a as [req| | | | | | |]; try reflexivity.
+        rewrite (proj2 (beqb_neq _ _) (NB req eq_refl)). reflexivity.
+      - unfold stamped. rewrite other_step_keeps_sess; [exact St|exact NB| |].
+        + intros k v ->. apply Q1. reflexivity.
+        + intros j ->. apply Q1. reflexivity. }
+    destruct a as [req|p|p|p pw|p|u rm|b' k v|ck b' j];
+      try (destruct OTHER as [Tm St']; [intros ? Hd; discriminate Hd|]; rewrite Tm; exact (IH _ U t St' Q2 An2)).
+    destruct (bytes_dec (q_browser req) b) as [Eb|Nb].
+    2:{ destruct OTHER as [Tm St']; [intros ? Hd; inversion Hd; subst; exact Nb|]. rewrite Tm. exact (IH _ U t St' Q2 An2). }
+    clear OTHER. unfold b_quiet_action in Q1. cbn [fst snd] in Q1.
+    destruct (Q1 Eb) as [(full & tf & fr & lk & c & R) Bd].
+    pose proof (An1 req eq_refl Eb) as Wr.
+    assert (Tm : b_times b ((AReq req, O) :: l) = o_now O :: b_times b l).
+    { unfold b_times. cbn [flat_map fst snd]. rewrite (proj2 (beqb_eq _ _) Eb). reflexivity. }
+    rewrite Tm. cbn [survives]. destruct St as (Hu & HU & ds & Hs & Hz). subst b.
+    destruct (Z.leb_spec (t + c_expire_after cfg) (o_now O)) as [Le|Lt].
+    + (* expired by this request *)
+      split; [discriminate|]. intros _.
+      assert (Ha : ahas k_uid (jar_get (q_browser req) (w_sess w)) = true) by (unfold ahas; rewrite Hu; reflexivity).
+      destruct (step_expired_stamp_lemma C cfg w req O full tf fr lk c false ds t R Ha Hs Hz Le WL (or_introl eq_refl))
+        as (_ & _ & _ & _ & Hw & _).
+      destruct (Hw Wr) as (_ & _ & _ & Gone & _).
+      apply anonymous_stays; [exact Q2|exact Gone].
+    + (* alive: the stamp moves to this request's time *)
+      assert (Hb : bempty (aget k_uid (jar_get (q_browser req) (w_sess w))) = false) by (unfold aget; rewrite Hu; exact HU).
+      destruct (step_fresh_stamp_lemma C cfg w req O full tf fr lk c false ds t R Hb Hs Hz Lt) as (Hw & _).
+      destruct (Hw Wr) as (S1 & S2 & _).
+      destruct (expire_refresh_jar_lemma [] (o_now O) Bd) as (_ & Zp & _).
+      assert (St' : stamped (q_browser req) U (o_now O) (fst (step C cfg w (AReq req) O))).
+      { split; [rewrite S2; exact Hu|]. split; [exact HU|]. exists (zdec (o_now O)). split; [exact S1|exact Zp]. }
+      destruct (IH _ U (o_now O) St' Q2 An2) as [I1 I2]. split; [|exact I2].
+      intros Sv. specialize (I1 Sv).
+      rewrite last_cons_default. exact I1.
+Qed.
+End C09.
+
+Section C09b.
+Variable C : crypto.
+Variable cfg : config.
+
+(* the identity is still in b's session at the end iff every gap between consecutive requests of b
+   (the first one measured from the stamp) is shorter than ExpireAfter *)
+Lemma history_survives_iff_gaps b l w U t :
+  bmem k_uid (c_whitelist cfg) = false ->
+  stamped b U t w -> b_app_history b l -> answered C cfg b w l ->
+  (ahas k_uid (jar_get b (w_sess (fst (run C cfg w l)))) = true <->
+   gaps_below (c_expire_after cfg) t (b_times b l)).
+Proof.
+  intros WL St Q An. destruct (history_expiry_lemma C cfg b WL l w U t St Q An) as [A B].
+  rewrite <- survives_iff_gaps_lemma.
+  destruct (survives (c_expire_after cfg) t (b_times b l)) eqn:Sv.
+  - destruct (A eq_refl) as (Hu & _). unfold ahas. rewrite Hu. split; reflexivity.
+  - unfold ahas. rewrite (B eq_refl). split; discriminate.
+Qed.
+
+(* and when it is, it is the SAME identity and the stamp is the time of b's last request *)
+Lemma history_survivor_lemma b l w U t :
+  bmem k_uid (c_whitelist cfg) = false ->
+  stamped b U t w -> b_app_history b l -> answered C cfg b w l ->
+  gaps_below (c_expire_after cfg) t (b_times b l) ->
+  stamped b U (last (b_times b l) t) (fst (run C cfg w l)).
+Proof.
+  intros WL St Q An G. apply survives_iff_gaps_lemma in G.
+  exact (proj1 (history_expiry_lemma C cfg b WL l w U t St Q An) G).
+Qed.
+
+(* one gap of ExpireAfter or more: the identity is gone at the end, whatever b's later requests *)
+Lemma history_expired_lemma b l w U t :
+  bmem k_uid (c_whitelist cfg) = false ->
+  stamped b U t w -> b_app_history b l -> answered C cfg b w l ->
+  ~ gaps_below (c_expire_after cfg) t (b_times b l) ->
+  alookup k_uid (jar_get b (w_sess (fst (run C cfg w l)))) = None.
+Proof.
+  intros WL St Q An G.
+  destruct (survives (c_expire_after cfg) t (b_times b l)) eqn:Sv.
+  - exfalso. apply G. apply survives_iff_gaps_lemma. exact Sv.
+  - exact (proj2 (history_expiry_lemma C cfg b WL l w U t St Q An) Sv).
+Qed.
+End C09b.
+
+(* non-vacuity for C09: ExpireAfter = 600 s; browser b1 holds a session for the seeded account stamped
+   at 1000.  History A: b1 asks the application at 1100 and 1600 (gaps 100, 500) while another browser
+   logs in and somebody is locked in between - the identity survives.  History B: 1100, 1700, 1750
+   (gap 600 = ExpireAfter) - the identity is gone, and the request at 1750 does not bring it back. *)
+Definition ex_b := bs "b1".
+Definition ex_app : request :=
+  mkRequest ex_b GET (RApp false false RespNotFound false false false true) (bs "/app") [] [] [] false.
+Definition ex_at (t : Z) : oracle := mkOracle t [] [] [] (mkPA false false [] [] [] [] 0).
+Definition ex_other : request :=
+  mkRequest (bs "b2") POST RLogin (bs "/login") [] [] [(f_email, hx_pid); (f_password, bs "password1")] false.
+Definition ex_w0 : world :=
+  fst (run XC (hx_cfg false) empty_world
+    [(ASeed hx_user [], hx_oracle); (ASetJar false ex_b [(k_uid, hx_pid); (k_last_action, zdec 1000)], hx_oracle)]).
+Definition ex_alive : list (action * oracle) :=
+  [(AReq ex_app, ex_at 1100); (AReq ex_other, ex_at 1200); (ALock (bs "nobody"), ex_at 1300); (AReq ex_app, ex_at 1600)].
+Definition ex_dead : list (action * oracle) :=
+  [(AReq ex_app, ex_at 1100); (AReq ex_other, ex_at 1200); (AReq ex_app, ex_at 1700); (AReq ex_app, ex_at 1750)].
+
+Lemma ex_quiet_app t : Z.abs t < 10 ^ 40 -> b_quiet_action ex_b (AReq ex_app, ex_at t).
+Proof. intros B _. split; [|exact B]. exists false, false, RespNotFound, false, false. reflexivity. Qed.
+Lemma ex_quiet_other t : b_quiet_action ex_b (AReq ex_other, ex_at t).
+Proof. intros H. vm_compute in H. discriminate H. Qed.
+
+Lemma ex_witness :
+  bmem k_uid (c_whitelist (hx_cfg false)) = false /\ c_expire_after (hx_cfg false) = 600 /\
+  stamped ex_b hx_pid 1000 ex_w0 /\
+  (b_app_history ex_b ex_alive /\ answered XC (hx_cfg false) ex_b ex_w0 ex_alive /\
+   b_times ex_b ex_alive = [1100; 1600] /\
+   ahas k_uid (jar_get ex_b (w_sess (fst (run XC (hx_cfg false) ex_w0 ex_alive)))) = true) /\
+  (b_app_history ex_b ex_dead /\ answered XC (hx_cfg false) ex_b ex_w0 ex_dead /\
+   b_times ex_b ex_dead = [1100; 1700; 1750] /\
+   ahas k_uid (jar_get ex_b (w_sess (fst (run XC (hx_cfg false) ex_w0 ex_dead)))) = false).
+Proof.
+  split; [reflexivity|]. split; [reflexivity|].
+  split. { split; [vm_compute; reflexivity|]. split; [reflexivity|]. exists (zdec 1000). split; vm_compute; reflexivity. }
+  split.
+  - split.
+    { unfold b_app_history, ex_alive.
+      apply Forall_cons; [apply ex_quiet_app; vm_compute; reflexivity|].
+      apply Forall_cons; [apply ex_quiet_other|]. apply Forall_cons; [exact I|].
+      apply Forall_cons; [apply ex_quiet_app; vm_compute; reflexivity|]. constructor. }
+    split.
+    { cbn [answered ex_alive].
+      split; [intros req Hq _; vm_compute; discriminate|].
+      split; [intros req Hq _; vm_compute; discriminate|].
+      split; [intros req Hq; discriminate Hq|].
+      split; [intros req Hq _; vm_compute; discriminate|exact I]. }
+    split; vm_compute; reflexivity.
+  - split.
+    { unfold b_app_history, ex_dead.
+      apply Forall_cons; [apply ex_quiet_app; vm_compute; reflexivity|].
+      apply Forall_cons; [apply ex_quiet_other|].
+      apply Forall_cons; [apply ex_quiet_app; vm_compute; reflexivity|].
+      apply Forall_cons; [apply ex_quiet_app; vm_compute; reflexivity|]. constructor. }
+    split.
+    { cbn [answered ex_dead].
+      split; [intros req Hq _; vm_compute; discriminate|].
+      split; [intros req Hq _; vm_compute; discriminate|].
+      split; [intros req Hq _; vm_compute; discriminate|].
+      split; [intros req Hq _; vm_compute; discriminate|exact I]. }
+    split; vm_compute; reflexivity.
+Qed.
+
+(* ---- readings used by the Props files ---------------------------------------------------------- *)
+Lemma changes_password_reading U a :
+  changes_password U a <->
+  match a with
+  | AUpdatePassword pid _ => pid = U
+  | ASeed u _ => u_pid u = U
+  | AReq req => q_route req = RRecoverEnd /\ q_meth req = POST
+  | _ => False
+  end.
+Proof. destruct a; reflexivity. Qed.
+
+Lemma answered_reading C cfg b w a O l :
+  answered C cfg b w ((a, O) :: l) <->
+  (forall req, a = AReq req -> q_browser req = b -> ob_resp (snd (step C cfg w a O)) <> None) /\
+  answered C cfg b (fst (step C cfg w a O)) l.
+Proof. reflexivity. Qed.
